@@ -168,6 +168,61 @@ func c16Explore(bn, bb *px.Built, rn, rb *px.Runner, fam string, idx int64, prm 
 			}
 		}
 	}
+	// The value an action returns must not decide whether its reduction is
+	// reported: the same input again with every (then every other) generic
+	// action returning a nil interface value gives the same sequence of
+	// reductions and _onBounds calls with the same spans.
+	starF := false
+	for _, r := range g.Rules {
+		for _, a := range r.Alts {
+			for _, t := range a.Terms {
+				if t.S == gen.StarF {
+					starF = true // elements of x*! must have Discard(): a nil element is not a legal result there
+				}
+			}
+		}
+	}
+	plain := check
+	sig := func(evs []ctypes.Ev) []string {
+		var out []string
+		for _, e := range evs {
+			if e.Kind == ctypes.EvReduce {
+				out = append(out, fmt.Sprintf("reduce %d", e.Prod))
+			} else {
+				out = append(out, fmt.Sprintf("bounds #%d..#%d", e.Begin.Idx, e.End.Idx))
+			}
+		}
+		return out
+	}
+	check = func(w []int) {
+		n0 := len(out)
+		plain(w)
+		if starF || len(out) > n0 {
+			return
+		}
+		bb.Install(rb.C)
+		ref := rb.Run(w)
+		if ref.Panic != "" || ref.Hang != "" || ref.Incon {
+			return
+		}
+		for mode, f := range []func(prod int32) bool{func(int32) bool { return true }, func(p int32) bool { return p%2 == 0 }} {
+			rb.NilRes = f
+			o := rb.Run(w)
+			rb.NilRes = nil
+			st.Evaluations++
+			if o.Panic != "" {
+				report("parser-panic", w, fmt.Sprintf("with actions returning nil (mode %d) the parser panicked: %s", mode, o.Panic))
+				return
+			}
+			if o.Hang != "" || o.Incon {
+				continue
+			}
+			if a, b := sig(ref.Events), sig(o.Events); o.OK != ref.OK || !reflect.DeepEqual(a, b) {
+				report("result-dependent-call", w, fmt.Sprintf("with actions returning a nil interface value (mode %d) the reductions / _onBounds calls are %v (parse()=%v); with non-nil results they are %v (parse()=%v)", mode, b, o.OK, a, ref.OK))
+				return
+			}
+		}
+	}
 	if only != nil {
 		check(only)
 		return out
@@ -285,7 +340,7 @@ func init() {
 		ID:    "C16",
 		Level: "model_checking",
 		Rule: "grammars: members of the counter-enumerated spaces (plain, three-rule, one-sugar, @error) with at least one nullable non-terminal, accepted by lox; inputs: every sentence up to the length bound (spans checked) and every string over tokens+ERROR up to a smaller bound (exactly-once, crash freedom); " +
-			"run on the second template variant (bounds carrier) and on the plain carrier for the 'changes nothing else' comparison; non-trivial = grammar with >= 3 checked _onBounds calls; states = distinct parser configurations of the bounds variant",
+			"run on the second template variant (bounds carrier) and on the plain carrier for the 'changes nothing else' comparison; every input again with all (then every other) generic actions returning a nil interface value: same reductions, same _onBounds calls and spans; non-trivial = grammar with >= 3 checked _onBounds calls; states = distinct parser configurations of the bounds variant",
 		Assume: []string{
 			"spans are computed from the tree the generic action builds from the real stack (its correspondence with the derivation is C01/C03's subject)",
 			"reductions whose yield consists only of @error leaves are outside the statement (spans are defined over derived tokens)",
